@@ -5238,6 +5238,9 @@ func (a *Agent) TaskDispatch(RequestID uint32, CommandID uint32, Parser *parser.
 													break
 												}
 											}
+
+											// also forget the persisted link to the previous parent
+											teamserver.LinkRemove(DemonInfo.Pivots.Parent, DemonInfo, false)
 										}
 
 										DemonInfo.Active = true
